@@ -68,26 +68,27 @@ def wbFar : List Nat → Option Nat
 
 def stateIs (state : Option Nat) (v : Nat) : Bool := state == some v
 
-/-- `transitionWordBreakState` on classes; `far` is what the look-ahead loop would return -/
-def transW (state : Option Nat) (nextProperty : Nat) (far : Option Nat) : Nat × Bool :=
+/-- `transitionWordBreakState` on classes; `gEP`: the grapheme table says Extended_Pictographic;
+`far` is what the look-ahead loop would return -/
+def transW (state : Option Nat) (nextProperty : Nat) (gEP : Bool) (far : Option Nat) : Nat × Bool :=
   if nextProperty == prZWJ then
     if stateIs state wbNewline || stateIs state wbCR || stateIs state wbLF then (wbAny ||| wbZWJBit, true)
-    else match state with
-      | none => (wbAny ||| wbZWJBit, false)
-      | some s => (s ||| wbZWJBit, false)
+    else if state.isNone || stateIs state wbWSegSpace then (wbAny ||| wbZWJBit, false)
+    else (state.getD 0 ||| wbZWJBit, false)
   else if nextProperty == prExtend || nextProperty == prFormat then
     if stateIs state wbNewline || stateIs state wbCR || stateIs state wbLF then (wbAny, true)
     else if stateIs state wbWSegSpace || stateIs state (wbAny ||| wbZWJBit) then (wbAny, false)
     else match state with
       | none => (wbAny, false)
-      | some s => (s, false)
+      | some s => (s &&& (wbZWJBit ^^^ 0xFFFFFFFF), false)
   else if nextProperty == prExtendedPictographic && (match state with | none => false | some s => s &&& wbZWJBit != 0) then
     (wbAny, false)
   else
+    let wb3c := (match state with | none => false | some s => s &&& wbZWJBit != 0) && gEP
     let state := state.map fun s => s &&& (wbZWJBit ^^^ 0xFFFFFFFF)   -- state &^ wbZWJBit
     let t := merge wbPacked wbAny prAny (wbAny, 1, 9990) state nextProperty
     let newState := t.1
-    let wordBreak := t.2.1 == 1
+    let wordBreak := if wb3c then false else t.2.1 == 1
     let rule := t.2.2
     let lookAhead := rule > 60 &&
       (stateIs state wbALetter || stateIs state wbHebrewLetter || stateIs state wbNumeric) &&
@@ -110,7 +111,7 @@ def transW (state : Option Nat) (nextProperty : Nat) (far : Option Nat) : Nat ×
 
 /-- `transitionWordBreakState(state, r, b, str)` -/
 def transitionWordBreakState (state : Option Nat) (r : Nat) (rest : List Nat) : Nat × Bool :=
-  transW state (property wordTable r) (wbFar rest)
+  transW state (property wordTable r) (propertyGraphemes r == prExtendedPictographic) (wbFar rest)
 
 /-! ## Sentences -/
 
@@ -119,12 +120,11 @@ def sbStopper (p : Nat) : Bool :=
   p == prATerm || p == prSTerm
 
 /-- the SB8 forward scan, started with the class of the current rune; returns the class at
-which the loop stops (a stopper, or whatever it held when the rest ran out / hit `RuneError`) -/
+which the loop stops (a stopper, or whatever it held when the rest ran out: `length == 0`) -/
 def sbScan (nextProperty : Nat) : List Nat → Nat
   | [] => nextProperty
   | r :: rs =>
     if sbStopper nextProperty then nextProperty
-    else if r == Utf8.runeError then nextProperty
     else sbScan (property sentenceTable r) rs
 
 /-- `transitionSentenceBreakState` on classes; `scanLower` says whether the SB8 scan, if run,
@@ -169,14 +169,22 @@ def lbIn (r : Nat) : LbIn :=
     eaFWH := ea == prF || ea == prW || ea == prH
     extPicCn := propertyGraphemes r == prExtendedPictographic && pg.2 == gcCn }
 
-/-- LB25 look-ahead: "the next rune exists, is not `RuneError`, and has (unresolved) class NU" -/
+/-- LB25 look-ahead loop: skip CM, ZWJ and SA marks (LB9), then test for NU -/
 def lbNextNU : List Nat → Bool
   | [] => false
-  | r :: _ => r != Utf8.runeError && (propertyLineBreak r).1 == prNU
+  | r :: rs =>
+    let pg := propertyLineBreak r
+    if pg.1 == prCM || pg.1 == prZWJ || (pg.1 == prSA && (pg.2 == gcMn || pg.2 == gcMc)) then lbNextNU rs
+    else pg.1 == prNU
 
 /-- the deferred closure of `transitionLineBreakState` -/
-def lbFin (x : LbIn) (forceNoBreak : Bool) (res : Nat × Nat) : Nat × Nat :=
-  let newState := if (res.1 == lbCP || res.1 == lbNUCP) && !x.eaFWH then res.1 ||| lbCPeaFWHBit else res.1
+def lbFin (x : LbIn) (isCPeaFWH forceNoBreak : Bool) (res : Nat × Nat) : Nat × Nat :=
+  let base := res.1 &&& (lbZWJBit ^^^ 0xFFFFFFFF)
+  let newState :=
+    if base == lbCP || base == lbNUCP then
+      (if x.prop == prCP then (if !x.eaFWH then res.1 ||| lbCPeaFWHBit else res.1)
+       else if isCPeaFWH then res.1 ||| lbCPeaFWHBit else res.1)
+    else res.1
   (newState, if forceNoBreak then LineDontBreak else res.2)
 
 /-- `transitionLineBreakState` on the class signature; `nextNU` is the LB25 look-ahead result -/
@@ -186,14 +194,15 @@ def transL (state0 : Option Nat) (x : LbIn) (nextNU : Bool) : Nat × Nat :=
   let forceNoBreak := match state1 with | none => false | some s => s &&& lbZWJBit != 0
   let state := if forceNoBreak then state1.map (fun s => s &&& (lbZWJBit ^^^ 0xFFFFFFFF)) else state1
   let nextProperty := x.prop
-  lbFin x forceNoBreak <|
+  lbFin x isCPeaFWH forceNoBreak <|
   if nextProperty == prZWJ || nextProperty == prCM then
     let bit := if nextProperty == prZWJ then lbZWJBit else 0
     let mustBreakState := state.isNone || stateIs state lbBK || stateIs state lbCR || stateIs state lbLF || stateIs state lbNL
-    if !mustBreakState && !stateIs state lbSP && !stateIs state lbZW && !stateIs state lbQUSP &&
-        !stateIs state lbCLCPSP && !stateIs state lbB2SP then
+    if !mustBreakState && !stateIs state lbSP && !stateIs state lbZW && !stateIs state lbOPSP &&
+        !stateIs state lbQUSP && !stateIs state lbCLCPSP && !stateIs state lbB2SP then
       ((state.getD 0) ||| bit, LineDontBreak)
     else if mustBreakState then (lbAL ||| bit, LineMustBreak)
+    else if stateIs state lbOPSP then (lbAL ||| bit, LineDontBreak)
     else (lbAL ||| bit, LineCanBreak)
   else
     let t := merge lbPacked lbAny prAny (lbAny, LineCanBreak, 310) state nextProperty
@@ -203,11 +212,11 @@ def transL (state0 : Option Nat) (x : LbIn) (nextNU : Bool) : Nat × Nat :=
     if rule > 121 && nextProperty == prGL &&
         (!stateIs state lbSP && !stateIs state lbBA && !stateIs state lbHY && !stateIs state lbLB21a &&
          !stateIs state lbQUSP && !stateIs state lbCLCPSP && !stateIs state lbB2SP) then (lbGL, LineDontBreak)
-    else if rule > 130 && !stateIs state lbNU && !stateIs state lbNUNU &&
+    else if rule > 130 && !stateIs state lbNU && !stateIs state lbNUNU && !stateIs state lbNUSY && !stateIs state lbNUIS &&
         (nextProperty == prCL || nextProperty == prCP || nextProperty == prIS || nextProperty == prSY) then
       (if nextProperty == prCL then lbCL else if nextProperty == prCP then lbCP
        else if nextProperty == prIS then lbIS else lbSY, LineDontBreak)
-    else if (rule > 250 && (stateIs state lbPR || stateIs state lbPO) && nextProperty == prOP || nextProperty == prHY)
+    else if rule > 250 && (stateIs state lbPR || stateIs state lbPO) && (nextProperty == prOP || nextProperty == prHY)
         && nextNU then (lbNU, LineDontBreak)
     else if rule > 300 && (stateIs state lbAL || stateIs state lbHL || stateIs state lbNU || stateIs state lbNUNU)
         && nextProperty == prOP && !x.eaFWH then (lbOP, LineDontBreak)
@@ -219,8 +228,8 @@ def transL (state0 : Option Nat) (x : LbIn) (nextNU : Bool) : Nat × Nat :=
       else if stateIs state lbOddRI then (lbEvenRI, LineDontBreak)
       else (lbOddRI, lineBreak)
     else if rule > 302 && nextProperty == prEM && (stateIs state lbEB || stateIs state lbExtPicCn) then
-      (prAny, LineDontBreak)
-    else if rule > 302 && x.extPicCn then (lbExtPicCn, LineCanBreak)
+      (lbIDEM, LineDontBreak)
+    else if newState == lbIDEM && x.extPicCn then (lbExtPicCn, lineBreak)
     else (newState, lineBreak)
 
 /-- `transitionLineBreakState(state, r, b, str)` -/
